@@ -23,6 +23,7 @@ const MAX_STRING_LEN: usize = 1_000_000;
 const MAX_NESTING_DEPTH: usize = 64;
 const MAX_SECTION_LEN: usize = 256 * 1024 * 1024;
 const MAX_POINTER_PAYLOAD: u64 = (1 << 48) - 1; // what a NaN-boxed pointer can hold
+const MAX_U16_FIELD: usize = 0xFFFF; // largest count / length a u16 field of the format can carry
 
 const SECTION_MANIFEST: u32 = u32::from_le_bytes(*b"MANF");
 const SECTION_BUNDLES: u32 = u32::from_le_bytes(*b"NBND");
@@ -71,15 +72,106 @@ pub enum BinaryError {
 
 pub type Result<T> = std::result::Result<T, BinaryError>;
 
-/// Serialize a function and its heap to .avbc binary format
-pub fn serialize(func: &Function, heap: &Heap) -> Vec<u8> {
+/// Serialize a function and its heap to .avbc binary format.
+///
+/// Fails when the function cannot be represented (a table longer than its count field or
+/// than the reader's limit, nesting deeper than the reader accepts, a nested-function
+/// constant without its function): whatever this returns, `deserialize` reads back.
+pub fn try_serialize(func: &Function, heap: &Heap) -> Result<Vec<u8>> {
+    check_function(func, heap, 0)?;
     let mut writer = BinaryWriter::new();
     writer.write_program(func, heap);
-    writer.into_bytes()
+    Ok(writer.into_bytes())
+}
+
+/// Like [`try_serialize`], with optional manifest and bundles.
+pub fn try_serialize_with_manifest(
+    func: &Function,
+    heap: &Heap,
+    manifest: Option<&[u8]>,
+    bundles: Option<&[NativeBundle]>,
+) -> Result<Vec<u8>> {
+    check_function(func, heap, 0)?;
+    Ok(serialize_with_manifest_unchecked(
+        func, heap, manifest, bundles,
+    ))
+}
+
+/// Serialize a function and its heap to .avbc binary format
+///
+/// # Panics
+/// If the function does not fit the format (see [`try_serialize`]).
+pub fn serialize(func: &Function, heap: &Heap) -> Vec<u8> {
+    try_serialize(func, heap).unwrap_or_else(|e| panic!("cannot serialize function: {}", e))
 }
 
 /// Serialize a function and heap to .avbc with optional manifest and bundles.
+///
+/// # Panics
+/// If the function does not fit the format (see [`try_serialize`]).
 pub fn serialize_with_manifest(
+    func: &Function,
+    heap: &Heap,
+    manifest: Option<&[u8]>,
+    bundles: Option<&[NativeBundle]>,
+) -> Vec<u8> {
+    try_serialize_with_manifest(func, heap, manifest, bundles)
+        .unwrap_or_else(|e| panic!("cannot serialize function: {}", e))
+}
+
+fn check_len(len: usize, limit: usize, what: &'static str) -> Result<()> {
+    if len > limit {
+        return Err(BinaryError::LimitExceeded { what, limit });
+    }
+    Ok(())
+}
+
+/// Everything the reader would reject or a count field would truncate, checked before
+/// a single byte is written.
+fn check_function(func: &Function, heap: &Heap, depth: usize) -> Result<()> {
+    check_len(depth, MAX_NESTING_DEPTH, "function nesting depth")?;
+    let name_len = func.name.as_ref().map_or(0, |n| n.len());
+    check_len(name_len, MAX_U16_FIELD.min(MAX_STRING_LEN), "function name length")?;
+    check_len(func.constants.len(), MAX_U16_FIELD.min(MAX_CONSTANTS), "constants")?;
+    check_len(func.bytecode.len(), MAX_BYTECODE_LEN, "bytecode length")?;
+    check_len(
+        func.nested_functions.len(),
+        MAX_U16_FIELD.min(MAX_NESTED_FUNCTIONS),
+        "nested functions",
+    )?;
+    check_len(
+        func.upvalue_descriptors.len(),
+        MAX_U16_FIELD.min(MAX_UPVALUE_DESCRIPTORS),
+        "upvalue descriptors",
+    )?;
+    check_len(func.lines.len(), MAX_U16_FIELD.min(MAX_LINES), "line info entries")?;
+    let names = func.global_layout.names();
+    check_len(names.len(), MAX_U16_FIELD.min(MAX_GLOBAL_NAMES), "global names")?;
+    for name in names {
+        check_len(name.len(), MAX_U16_FIELD.min(MAX_STRING_LEN), "global name length")?;
+    }
+    for constant in &func.constants {
+        if let Some(func_idx) = constant.as_nested_fn_marker() {
+            if func_idx >= func.nested_functions.len() {
+                return Err(BinaryError::InvalidNestedFunctionIndex {
+                    index: func_idx,
+                    max: func.nested_functions.len().saturating_sub(1),
+                });
+            }
+        } else if let Some(ptr) = constant.as_ptr()
+            && let Some(obj) = heap.get(GcRef::new(ptr))
+            && let ObjectKind::String(s) = &obj.kind
+        {
+            check_len(s.as_bytes().len(), MAX_STRING_LEN, "string length")?;
+        }
+    }
+    for nested in &func.nested_functions {
+        check_function(nested, heap, depth + 1)?;
+    }
+    Ok(())
+}
+
+fn serialize_with_manifest_unchecked(
     func: &Function,
     heap: &Heap,
     manifest: Option<&[u8]>,
